@@ -767,7 +767,7 @@ def run(ctx, n_override=None, oracle_only=False):
                 'and negative, --collapse/--subtotal/--by-payee/--dow/--depth 1-3, alone, with --real/--cleared/--pending/'
                 'an account query/a payee query, and combined in chain order); a case is non-trivial when the option changes the rows of '
                 'the reference register, or N lies strictly inside 0..count; distinct by journal text + option text')
-    nj = n_override or ctx.scale(150, 1200)
+    nj = n_override or ctx.scale(150, 800)
     thorough = ctx.tier == 'thorough'
     all_model_lines, pending = [], []
     for j in range(nj):
@@ -846,7 +846,8 @@ def replay(ctx, obj):
         path = ctx.path('replay.dat')
         open(path, 'w').write(case['journal'])
         o = Opt(**case['opt'])
-        todo = [o, o.but(head=None, tail=None), o.but(sort=None), o.but(grp='none', coll=None), o.but(pquery=None)]
+        todo = [o, o.but(head=None, tail=None), o.but(sort=None), o.but(grp='none', coll=None), o.but(pquery=None),
+                o.but(head=None, tail=None, grp='none', coll=None, sort=None)]
         outs = {}
         for x in todo:
             if x.text() not in outs:
